@@ -161,4 +161,37 @@ PROPS = {
              "Spec.TermDecode = matrix inside a one-module light border. distinct = (mode, version, payload length class).",
         exhaustive_quick=True, exhaustive_thorough=True,
         trusted=["hand model of helpers.rs tied by exact-string correspondence on all 40 sizes"]),
+    "C12": dict(
+        module="FastQr.Props.C12", level="proof", partial=True,
+        key=lambda t: ("svg", t[4], tuple(sorted(set(x.split(":")[0] + (":" + x.split(":")[1] if x.startswith(("s:", "sc:", "is:")) else "") for x in t[6].split(";")))), hash(t[6]) % 7) if len(t) > 7 else None,
+        missing=["document-level theorem Spec.SvgParse.check (toStr b q) = none is evaluated per rendering, not yet proved symbolically"],
+        rule="cases: real SvgBuilder::to_str on real symbols (versions 1..8 mostly, every 10th any version) under generated setter "
+             "histories: margin 0..n, 0..3 shape()/shape_color() calls over the 6 shapes, colours as 3/4-byte arrays (alpha "
+             "255/254/128/0) and strings, image strings incl. every XML-special character, quotes, entities, non-ASCII, empty. "
+             "spec verdict = Spec.SvgParse: well-formed, viewBox/background, one path per layer whose sub-path anchors are "
+             "exactly the dark modules in row-major order, colours, single image element whose un-escaped href is the string. "
+             "distinct = (version, set of setters with shape indices, history hash class).",
+        trusted=["hand model of convert/svg.rs + convert/mod.rs tied by exact-string correspondence",
+                 "Spec.SvgParse: my recogniser of the XML subset; colour strings assumed free of quote/angle/ampersand"]),
+    "C17": dict(
+        module="FastQr.Props.C17", level="proof",
+        key=lambda t: (t[0], tuple(sorted(set(x.split(":")[0] for x in t[2].split(";")))) if len(t) > 3 and t[0] == "wasm" else len(t[1]) % 11, t[t.index("=>") + 1] if "=>" in t else ""),
+        rule="cases: src/wasm.rs compiled on the host (guarded #[path] module): qr() on contents incl. empty, non-ASCII, beyond "
+             "capacity; qr_svg() under random histories of 0..6 option setters with well-formed and malformed values (21 colour "
+             "strings incl. non-hex, multi-byte, wrong length, '+' signs; position arrays of length 0..3; size without position and "
+             "vice versa; margins up to 10^6). spec verdict = no panic and output byte-equal to the REAL native builders driven "
+             "with the mapped options. distinct = (entry point, set of setters used, outcome).",
+        trusted=["hand model of wasm.rs tied by exact-string correspondence", "harness mapping of wasm options to native builder calls (the oracle)"],
+        assumptions=["wasm-bindgen glue, JS<->Rust conversions and 32-bit usize are not covered"]),
+    "C18": dict(
+        module="FastQr.Props.C18", level="proof",
+        key=lambda t: ("svg", t[4], tuple(x for x in t[6].split(";") if x.startswith(("m:", "is:"))), tuple(sorted(x.split(":")[0] for x in t[6].split(";") if x.startswith(("iz", "ig", "ip"))))) if len(t) > 7 else None,
+        rule="cases: real SvgBuilder with an image: defaults exhaustive 40 versions x 3 frame shapes x margins 0..16; overrides: "
+             "dyadic size / gap / position in every combination (quick 500, thorough 20000). spec verdict = frame and image "
+             "attributes parsed to exact rationals: square, centred on symbol or on the requested position, integer edges, "
+             "5b < 2n, clear of finder areas, image centred and no larger, requested size / gap honoured up to the 1-module "
+             "parity adjustment. distinct = (version, margin, frame shape, which overrides).",
+        exhaustive_quick=True, exhaustive_thorough=True,
+        trusted=["hand model of SvgBuilder::image tied by exact-string correspondence on dyadic inputs"],
+        assumptions=["IEEE-754 rounding and Rust float formatting are not modelled: floats are exact dyadics; generated overrides are dyadics with <= 3 fractional bits"]),
 }
